@@ -115,6 +115,8 @@ func (r *SparseFloat32Vector) VaddS(a ConstVector, b ConstScalar) Vector {
   if n != a.Dim() {
     panic("vector dimensions do not match")
   }
+  // b might be an element of r, which is overwritten below
+  b = b.CloneConstScalar()
   for i := 0; i < n; i++ {
     r.AT(i).Add(a.ConstAt(i), b)
   }
@@ -173,6 +175,8 @@ func (r *SparseFloat32Vector) VsubS(a ConstVector, b ConstScalar) Vector {
   if n != a.Dim() {
     panic("vector dimensions do not match")
   }
+  // b might be an element of r, which is overwritten below
+  b = b.CloneConstScalar()
   for i := 0; i < n; i++ {
     r.AT(i).Sub(a.ConstAt(i), b)
   }
@@ -225,6 +229,8 @@ func (r *SparseFloat32Vector) VmulS(a ConstVector, b ConstScalar) Vector {
   if r.Dim() != a.Dim() {
     panic("vector dimensions do not match")
   }
+  // b might be an element of r, which is overwritten below
+  b = b.CloneConstScalar()
   for it := r.JOINT_ITERATOR(a); it.Ok(); it.Next() {
     s_r := it.s1
     s_a := it.s2
@@ -239,6 +245,8 @@ func (r *SparseFloat32Vector) VMULS(a *SparseFloat32Vector, b Float32) *SparseFl
   if r.Dim() != a.Dim() {
     panic("vector dimensions do not match")
   }
+  // b might be an element of r, which is overwritten below
+  b = b.Clone()
   for it := r.JOINT_ITERATOR_(a); it.Ok(); it.Next() {
     s_r := it.s1
     s_a := it.s2
@@ -284,6 +292,8 @@ func (r *SparseFloat32Vector) VdivS(a ConstVector, b ConstScalar) Vector {
   if n != a.Dim() {
     panic("vector dimensions do not match")
   }
+  // b might be an element of r, which is overwritten below
+  b = b.CloneConstScalar()
   if b.GetFloat64() == 0.0 {
     for i := 0; i < n; i++ {
       r.At(i).Div(a.ConstAt(i), b)
@@ -309,6 +319,8 @@ func (r *SparseFloat32Vector) VDIVS(a *SparseFloat32Vector, b Float32) *SparseFl
     r.VdivS(a, b)
     return r
   }
+  // b might be an element of r, which is overwritten below
+  b = b.Clone()
   for it := r.JOINT_ITERATOR_(a); it.Ok(); it.Next() {
     s_r := it.s1
     s_a := it.s2
